@@ -499,9 +499,17 @@ def build_lang_project():
         langs = ', '.join("'%s'" % l for l in LANGSETS[ls])
         L.append("add_global_arguments(%s, language: [%s])" % (lit('-DGSEQ%d=%s' % (i, odd[i % len(odd)])), langs))
         L.append("add_global_link_arguments('-Wl,--gseq%d', language: [%s])" % (i, langs))
-    files = {'main.c': 'int main(void) { return 0; }\n', 'main.cpp': 'int main() { return 0; }\n'}
+    files = {'main.c': 'int main(void) { return 0; }\n', 'main.cpp': 'int main() { return 0; }\n', 'm2.cpp': 'int m2() { return 0; }\n',
+             'm2.c': 'int m2(void) { return 0; }\n'}
     L.append("executable('top_c', 'main.c')")
     L.append("executable('top_cpp', 'main.cpp')")
+
+    def mixed(name, gi):
+        # one target, two languages of the same compiler family, per-language target arguments; both source orders
+        ta = lambda lang: lit('-DTARG=%s %s' % (lang, odd[gi % len(odd)]))
+        return ["executable('%s_mixa', 'main.c', 'm2.cpp', c_args: [%s], cpp_args: [%s])" % (name, ta('c'), ta('cpp')),
+                "executable('%s_mixb', 'main.cpp', 'm2.c', c_args: [%s], cpp_args: [%s])" % (name, ta('c'), ta('cpp'))]
+    L += mixed('top', 0)
     for si, seq in enumerate(seqs):
         sub = 's%d' % si
         S = ["project('%s', 'c', 'cpp')" % sub]
@@ -511,9 +519,10 @@ def build_lang_project():
             S.append("add_project_link_arguments('-Wl,--seq%d', language: [%s])" % (i, langs))
         S.append("executable('%s_c', 'main.c')" % sub)
         S.append("executable('%s_cpp', 'main.cpp')" % sub)
+        S += mixed(sub, si)
         files['subprojects/%s/meson.build' % sub] = '\n'.join(S) + '\n'
-        files['subprojects/%s/main.c' % sub] = files['main.c']
-        files['subprojects/%s/main.cpp' % sub] = files['main.cpp']
+        for fn in ('main.c', 'main.cpp', 'm2.c', 'm2.cpp'):
+            files['subprojects/%s/%s' % (sub, fn)] = files[fn]
         L.append("subproject('%s')" % sub)
     files['meson.build'] = '\n'.join(L) + '\n'
     return files, seqs, gseq, odd
@@ -539,14 +548,24 @@ def run_lang_project(_job):
         argv, err = sh_split(edge.scope.vars.get(var, ''), os.path.join(root, 'lang.dump'), bdir)
         return [x for x in (argv or []) if x.startswith(prefix)]
 
-    def check(tname, lang, seq, glob):
+    def check(tname, lang, seq, glob, mixed=False):
         comp = [e for e in mf.edges if e.rule.name.startswith(lang + '_COMPILER') and e.outs and ('/' + tname + '.p/' in '/' + e.outs[0])]
-        lnk = [e for e in mf.edges if e.rule.name.startswith(lang + '_LINKER') and e.outs and e.outs[0].split('/')[-1] == tname]
-        if not comp or not lnk:
-            out['viol'].append(('C03:lang:no-edge', 'no compile/link statement for %s' % tname, {'given': tname}))
+        lnk = [e for e in mf.edges if e.rule.name.startswith(('cpp' if mixed else lang) + '_LINKER') and e.outs and e.outs[0].split('/')[-1] == tname]
+        if not comp or not lnk or (mixed and len(comp) != 1):
+            out['viol'].append(('C03:lang:no-edge', 'no (or not exactly the expected) compile/link statement for %s' % tname, {'given': tname}))
             return
+        if mixed:
+            # per-language arguments of one target that mixes two languages of one compiler family
+            exp_t = [b('-DTARG=%s %s' % (lang, odd[glob % len(odd)]))]
+            got_t = observed(comp[0], 'ARGS', b'-DTARG', 't')
+            out['cases'] += 1
+            out['by_kind']['target_args-by-language-mixed-target'] = out['by_kind'].get('target_args-by-language-mixed-target', 0) + 1
+            if got_t != exp_t:
+                out['viol'].append(('C03:target_args-by-language-mixed-target:' + ('count' if len(got_t) != len(exp_t) else 'changed'),
+                                    '%s (sources of C and C++): the %s source should be compiled with %r, its ARGS has %r' % (tname, lang, exp_t, got_t),
+                                    {'given': [x.decode() for x in exp_t], 'observed': [x.decode('utf-8', 'replace') for x in got_t], 'lang_sequence': list(seq)}))
         for var, edge, pre_p, pre_g, kind in (('ARGS', comp[0], b'-DSEQ', b'-DGSEQ', 'project_args-by-language'),
-                                            ('LINK_ARGS', lnk[0], b'-Wl,--seq', b'-Wl,--gseq', 'project_link_args-by-language')):
+                                            ('LINK_ARGS', lnk[0], b'-Wl,--seq', b'-Wl,--gseq', 'project_link_args-by-language'))[:1 if mixed else 2]:
             exp_p, exp_g = [], []
             for i, ls in enumerate(seq):
                 if lang in LANGSETS[ls]:
@@ -569,8 +588,12 @@ def run_lang_project(_job):
                                     {'given': [x.decode() for x in exp_g], 'observed': [x.decode('utf-8', 'replace') for x in got_g], 'lang_sequence': list(gseq)}))
     for lang in ('c', 'cpp'):
         check('top_' + lang, lang, (), 0)
+        for mix in ('mixa', 'mixb'):
+            check('top_' + mix, lang, (), 0, mixed=True)
         for si, seq in enumerate(seqs):
             check('s%d_%s' % (si, lang), lang, seq, si)
+            for mix in ('mixa', 'mixb'):
+                check('s%d_%s' % (si, mix), lang, seq, si, mixed=True)
     shutil.rmtree(root, ignore_errors=True)
     return out
 
